@@ -2368,6 +2368,96 @@ def _field_image(fr: _Frame, e: Optional[ast.AST], field: str, dom: Tuple[str, O
     out.unknown.append(e)
 
 
+# ---------------------------------------------------------------------------------------------------------
+# D3c  what a sequence value passes through on its way into the digest hands it on whole
+# ---------------------------------------------------------------------------------------------------------
+
+# calls that keep a bounded part of their argument whatever module they come from
+_CUT_FUNCS = {"shorten", "islice"}
+
+
+def _package_callees(fr: _Frame, call: ast.Call) -> List[Tuple[Module, ast.AST]]:
+    """Module-level functions / methods of the package *call* (read in *fr*) invokes that `_entered` does not follow:
+    functions of other modules, found through the imports of the module the call is written in."""
+    if _entered(fr, call) is not None:
+        return []
+    try:
+        targets = fr.repo.resolve_call(fr.repo.module(fr.rel), call)
+    except Exception:  # a call inside a normal form without the links the resolver wants: not resolved
+        targets = []
+    out = []
+    for tm, tn in targets:
+        if isinstance(tn, FuncNode) and tm.defs.get(qualname_of(tn)) is tn and not (tm.rel == fr.rel and fr.on_stack(tn)):
+            out.append((tm, tn))
+    return out
+
+
+def _positional_params(tn: ast.AST, call: ast.Call) -> List[str]:
+    a = tn.args
+    pos = [x.arg for x in a.posonlyargs + a.args]
+    if isinstance(parent(tn), ast.ClassDef) and not any(dotted_name(d) == "staticmethod" for d in tn.decorator_list) and (isinstance(call.func, ast.Attribute) or tn.name == "__init__"):
+        pos = pos[1:]
+    return pos
+
+
+def _value_cuts(fr: _Frame, e: Optional[ast.AST], depth: int = 0, seen: Optional[Set[int]] = None, local: bool = True) -> List[Tuple[str, str, ast.AST, str]]:
+    """(file, function, construct, why) for everything in the backward slice of *e* (read in *fr*, followed into
+    same-module callees by `fflow` and into functions of other modules here) that keeps only a bounded part of a value
+    derived from the analysed object: a slice / an element, a bounded-length rendering, a precision format.  With
+    *local=False* only the functions of other modules are judged (the constructs of the module itself belong to the
+    caller's own rule)."""
+    import re
+
+    seen = seen if seen is not None else set()
+    out: List[Tuple[str, str, ast.AST, str]] = []
+    if e is None or depth > 3:
+        return out
+    pairs = fflow(fr, e)
+
+    def dep(f: _Frame, x: ast.AST) -> bool:
+        return any(isinstance(y, ast.Name) and f2.is_obj(y.id) for f2, y in fflow(f, x))
+
+    def where(f: _Frame) -> Tuple[str, str]:
+        src = getattr(f.fn, "_normal_of", f.fn)
+        return f.rel, qualname_of(src) if isinstance(src, FuncNode) else "<module>"
+
+    for f, x in pairs:
+        why: Optional[str] = None
+        if not local and not isinstance(x, ast.Call):
+            continue
+        if isinstance(x, ast.Subscript) and isinstance(x.ctx, ast.Load) and (isinstance(x.slice, (ast.Slice, ast.Constant)) or (isinstance(x.slice, ast.UnaryOp) and isinstance(x.slice.operand, ast.Constant))) and dep(f, x.value):
+            # (an element picked by a running index / key - `m[k] for k in m` - is a traversal, not a cut)
+            why = f"`{_u(x)[:60]}` keeps only a slice / one element"
+        elif isinstance(x, ast.FormattedValue) and x.format_spec is not None and any(isinstance(c, ast.Constant) and isinstance(c.value, str) and "." in c.value for c in ast.walk(x.format_spec)) and dep(f, x.value):
+            why = f"`{_u(x)[:60]}` formats to a fixed precision / width"
+        elif isinstance(x, ast.BinOp) and isinstance(x.op, ast.Mod) and isinstance(x.left, ast.Constant) and isinstance(x.left.value, str) and re.search(r"%[-#0 +]*\d*\.\d+", x.left.value) and dep(f, x.right):
+            why = f"`{_u(x)[:60]}` formats to a fixed precision / width"
+        elif isinstance(x, ast.Call):
+            nm, d = call_attr(x), dotted_name(x.func) or ""
+            args = list(x.args) + [k.value for k in x.keywords]
+            if (nm in _CUT_FUNCS or d.startswith("reprlib.")) and (not local or any(dep(f, a) for a in args)):
+                why = f"`{_u(x)[:60]}` renders at a bounded length"
+            else:
+                for tm, tn in _package_callees(f, x):
+                    if id(tn) in seen:
+                        continue
+                    seen.add(id(tn))
+                    pos = _positional_params(tn, x)
+                    bound: Dict[str, ast.AST] = dict(zip(pos, x.args)) if not any(isinstance(a, ast.Starred) for a in x.args) else {}
+                    bound.update({k.arg: k.value for k in x.keywords if k.arg})
+                    obj = {p for p, v in bound.items() if not isinstance(v, ast.Constant)}
+                    if not obj:
+                        continue
+                    f.repo.consulted.add(tm.rel)
+                    nf_ = _root_frame(f.repo, tm.rel, NF(f.repo, tm.rel, qualname_of(tn)), obj)
+                    for rv in nf_.returns():
+                        out.extend(_value_cuts(nf_, rv, depth + 1, seen, True))
+        if why is not None:
+            rel, qn = where(f)
+            out.append((rel, qn, x, why))
+    return out
+
+
 def positional_and_domains(repo: Repo, R: Report) -> None:
     r = R.rule("C05-D3-position-and-domain", "declaration_index is the enumerate() index of the node in the spec; the range signature covers every RangeSpec field; the sequence signature covers count and a digest of all values", 9)
     bcs = NF(repo, GRAPH, "build_canonical_spec")
@@ -2455,8 +2545,135 @@ def positional_and_domains(repo: Repo, R: Report) -> None:
                     ok = ok and bool(c.args) and all_values(cf, c.args[0])
         ok = ok and n_dig > 0
     R.check(ok, r, SEM, "variable_domain_signature", "sequence signature: digest over all values", "the sequence digest covers only a part of the values (e.g. head/tail): sequences differing in the middle share a signature", vds.lineno)
+    # ... and every value arrives there whole: the digest is the only part of the signature that covers the complete
+    # domain, so a helper on the way (also one of another module: a shared repr / sanitising helper that is fine for
+    # a display sample) must not cut the value or its rendering
+    rc = R.rule("C05-D3c-digest-values-rendered-whole", "every function of the package a sequence value passes through on its way into the sequence digest - followed across module boundaries through the imports - returns the value or a complete rendering of it: no slice / element, bounded-length rendering or precision format of (a text derived from) its argument", 1)
+    for sig in seq_sigs:
+        for k, (vf, v) in sig.items():
+            if k == "kind":
+                continue
+            for cf, c in fflow(vf, v):
+                if not (isinstance(c, ast.Call) and call_attr(c) in HASH_FUNCS and c.args):
+                    continue
+                cuts = _value_cuts(cf, c.args[0], 0, set(), False)
+                for rel, qn, node, why in cuts:
+                    R.violation(rc, rel, qn, norm(stmt_of(node))[:110] if parent(node) is not None else _u(node)[:110], f"a value of a sweep sequence reaches the digest `{_u(c)[:70]}` of the domain signature only in part ({why}): two sweeps whose domains differ beyond the kept part - and produce different items - share the variable signature, hence node semantic id, semantic id and config id", getattr(node, "lineno", vds.lineno))
+                if not cuts:
+                    R.ok(rc, SEM, "variable_domain_signature", f"digest input `{_u(c.args[0])[:70]}`: nothing on the way cuts a value", "", getattr(c, "lineno", vds.lineno))
     ok = bool(fc_sigs) and all("key" in sig and reads_obj_attr(fflow(*sig["key"]), "key") for sig in fc_sigs or [])
     R.check(ok, r, SEM, "variable_domain_signature", "from_context signature carries the key", "the context key of a from_context variable is not part of the signature", vds.lineno)
+
+
+# ---------------------------------------------------------------------------------------------------------
+# D6  the configuration that is canonicalised is the declared one
+# ---------------------------------------------------------------------------------------------------------
+
+def _same_object_expr(e: ast.AST) -> Optional[str]:
+    """Text of an expression that denotes the same object whenever it is evaluated with the same binding of its root
+    local: a local, or an attribute chain of one (`cfg.nodes`)."""
+    d = dotted_name(e)
+    return d if d and isinstance(e, (ast.Name, ast.Attribute)) else None
+
+
+def _bound_args(tn: ast.AST, call: ast.Call) -> Dict[str, ast.AST]:
+    pos = _positional_params(tn, call)
+    bound: Dict[str, ast.AST] = dict(zip(pos, call.args)) if not any(isinstance(a, ast.Starred) for a in call.args) else {}
+    names = set(pos) | {x.arg for x in tn.args.kwonlyargs}
+    bound.update({k.arg: k.value for k in call.keywords if k.arg and k.arg in names})
+    return bound
+
+
+def canonicalised_config_is_declared(repo: Repo, R: Report) -> None:
+    """The node uuid is computed from the `parameters` mapping of the node configurations `build_canonical_spec`
+    receives.  A caller that hands the very same configuration object to other code first (inspection builds its nodes
+    from it) relies on an agreement across that module boundary: that code leaves the entries of the caller-owned
+    `parameters` mappings alone.  An entry popped there is missing from the hashed parameter map, so configurations
+    that differ only in it get one node uuid, one semantic id and one config id."""
+    r = R.rule("C05-D6-canonicalised-config-is-declared-config", "wherever a function hands a configuration object to the canonicaliser that computes the node uuids (directly, or through a constructor / function that passes its parameter on) after having handed the same object to other code of the package, that code - and everything it reaches with the node configurations - never removes or overwrites entries of a caller-owned \"parameters\" mapping (nor the entry itself): the parameter map hashed into the node uuid is the declared one", 1)
+    from .c02_rest import _CfgFlow
+
+    gmod = repo.module(GRAPH)
+    bcs = repo.func(GRAPH, "build_canonical_spec")
+    if not _params_of(bcs):
+        raise AnalysisError("build_canonical_spec: configuration parameter not found")
+    sinks: Dict[int, Tuple[Module, ast.AST, str]] = {id(bcs): (gmod, bcs, _params_of(bcs)[0])}
+    funcs = [(m, qn, f) for m, qn, f in repo.all_functions() if not any(isinstance(a, FuncNode) for a in ancestors(f))]
+    resolved: Dict[int, List[Tuple[ast.Call, List[Tuple[Module, ast.AST]]]]] = {}
+    for m, _qn, f in funcs:
+        rows = []
+        for c in calls_in(f):
+            if not c.args and not c.keywords:
+                continue
+            tg = [(tm, tn) for tm, tn in repo.resolve_call(m, c) if isinstance(tn, FuncNode)]
+            if tg:
+                rows.append((c, tg))
+        resolved[id(f)] = rows
+    # functions that pass a parameter on to the canonicaliser unchanged are canonicalisers of that parameter too
+    for _round in range(4):
+        grew = False
+        for m, _qn, f in funcs:
+            if id(f) in sinks:
+                continue
+            for c, tg in resolved[id(f)]:
+                for tm, tn in tg:
+                    if id(tn) not in sinks:
+                        continue
+                    a = _bound_args(tn, c).get(sinks[id(tn)][2])
+                    if isinstance(a, ast.Name) and a.id in _params_of(f) and not name_values(f, a.id):
+                        sinks[id(f)] = (m, f, a.id)
+                        grew = True
+        if not grew:
+            break
+    clean_spec = {("spec", True, True, frozenset())}
+    judged: Dict[Tuple[int, str], List[Tuple[str, str, ast.AST, str]]] = {}
+    n_sites = 0
+    reported: Set[int] = set()
+    for m, qn, f in funcs:
+        rows = resolved[id(f)]
+        sink_calls = [(c, _bound_args(tn, c).get(sinks[id(tn)][2])) for c, tg in rows for tm, tn in tg if id(tn) in sinks]
+        sink_calls = [(c, a) for c, a in sink_calls if a is not None and _same_object_expr(a) is not None]
+        if not sink_calls:
+            continue
+        g: Optional[CFG] = None
+        for sc, sarg in sink_calls:
+            text = _same_object_expr(sarg)
+            root = text.split(".")[0]  # type: ignore[union-attr]
+            for oc, tg in rows:
+                if oc is sc or any(x is oc for x in ast.walk(sc)) or any(x is sc for x in ast.walk(oc)):
+                    continue
+                for tm, tn in tg:
+                    if tn is f:
+                        continue
+                    hit = [p for p, a in _bound_args(tn, oc).items() if _same_object_expr(a) == text]
+                    if not hit:
+                        continue
+                    g = g or CFG(f, may_raise=lambda p: set())
+                    on, sn = g.nodes_for(stmt_of(oc)), g.nodes_for(stmt_of(sc))
+                    if not on or not sn or on[0] == sn[0]:
+                        continue
+                    if sn[0] not in g.reach([t for t, _l in g.succ[on[0]]]):
+                        continue  # the other code only runs after the uuids were computed
+                    if {d.id for d in reaching_defs(g, root, on[0])} != {d.id for d in reaching_defs(g, root, sn[0])}:
+                        continue  # re-bound in between: another object
+                    n_sites += 1
+                    for p in hit:
+                        key = (id(tn), p)
+                        if key not in judged:
+                            fl = _CfgFlow(repo)
+                            fl.bind_param(tm, tn, p, clean_spec)
+                            fl.solve()
+                            judged[key] = [t for t in fl.mutations.values() if not (isinstance(t[2], ast.Call) and call_attr(t[2]) == "setdefault")]
+                        muts = judged[key]
+                        for rel, mqn, node, what in sorted(muts, key=lambda t: (t[0], getattr(t[2], "lineno", 0))):
+                            if id(node) in reported:
+                                continue
+                            reported.add(id(node))
+                            R.violation(r, rel, mqn, norm(stmt_of(node))[:110], f"{what}; `{_u(oc)[:60]}` receives `{text}` in {qn} before `{_u(sc)[:60]}` computes the node uuids from the same object: the entry is gone from the parameter map that is hashed, so two configurations that differ only in it get the same node uuid, semantic id and config id (and the uuid differs from the one the run-time path computes)", getattr(node, "lineno", 0))
+                        if not muts:
+                            R.ok(r, m.rel, qn, f"`{_u(oc)[:60]}` before `{_u(sc)[:60]}` on `{text}`", "", oc.lineno)
+    if n_sites == 0:
+        raise AnalysisError("no function hands a configuration to other code before canonicalising it (inspect-then-canonicalise sites not found)")
 
 
 def run(repo: Repo, R: Report) -> None:
@@ -2470,6 +2687,7 @@ def run(repo: Repo, R: Report) -> None:
     sweep_metadata(repo, R)
     rollup_sees_enrichment(repo, R)
     positional_and_domains(repo, R)
+    canonicalised_config_is_declared(repo, R)
     # an expression signature that merges expressions of different value makes two different sweeps share an id:
     # the discrimination half of C12 (only +/* chains of one operator are flattened; every other position is
     # kept in order) is a necessary condition of C05 as well
